@@ -52,7 +52,8 @@ for n in names:
             out["runs"].append({"seed": s, "exit": p.returncode, "seconds": round(time.time() - t0), "violations": len(viol), "fingerprints": fps[:5]})
             print(n, prop, "seed", s, "exit", p.returncode, "violations", len(viol), "%ds" % (time.time() - t0), fps[:3], flush=True)
             if p.returncode == 2:
-                print(p.stdout[-1500:])
+                keep = [l[:400] for l in p.stdout.splitlines() if "[rapid] draw" not in l and not l.startswith("KNOWN-FINDING")]
+                print("\n".join(keep[-40:]))
             if p.returncode == 1:
                 break
     finally:
